@@ -105,6 +105,24 @@ pub fn run_search(q: &str, d: u32, set: &Set<Vec<u8>>, map: &Map<Vec<u8>>, keys_
         if gotm != want {
             return Err(format!("Map::search(Levenshtein({:?},{})) differs", q, d));
         }
+        // one automaton shared by two live searches advanced alternately, then used once more
+        {
+            let mut s1 = set.search(&lev).into_stream();
+            let mut s2 = map.search(&lev).into_stream();
+            let (mut g1, mut g2): (Vec<String>, Vec<String>) = (vec![], vec![]);
+            loop {
+                let x = s1.next().map(|k| String::from_utf8_lossy(k).to_string());
+                let y = s2.next().map(|(k, _)| String::from_utf8_lossy(k).to_string());
+                let done = x.is_none() && y.is_none();
+                g1.extend(x);
+                g2.extend(y);
+                if done { break; }
+            }
+            let again = set.search(&lev).into_stream().into_strs().map_err(|e| format!("{:?}", e))?;
+            if g1 != want || g2 != want || again != want {
+                return Err(format!("two live searches sharing one Levenshtein({:?},{}) automaton (advanced alternately) or a third search afterwards differ from the solo search", q, d));
+            }
+        }
         // bounded searches, with and without states, at matching keys (first, middle, last)
         if !want.is_empty() {
             for b in [&want[0], &want[want.len() / 2], &want[want.len() - 1]] {
